@@ -129,7 +129,7 @@ Qed.
 
 Lemma tx_amounts_okb_ok t : tx_amounts_okb t = true -> tx_amounts_ok t.
 Proof.
-  unfold tx_amounts_okb, tx_amounts_ok. intros H. apply andb_prop in H as [H1 H2]. split; [lia|].
+  unfold tx_amounts_okb, tx_nonneg_okb, tx_amounts_ok. intros H. apply andb_prop in H as [H _]. apply andb_prop in H as [H1 H2]. split; [lia|].
   apply Forall_forall. intros tr Hin. rewrite forallb_forall in H2. specialize (H2 tr Hin). lia.
 Qed.
 Lemma entry_valid_at_ok e h txs : entry_valid_at c e h = Some txs -> txs_ok txs.
